@@ -9,23 +9,23 @@ NOTE = ("trusted: go/ssa's translation, the engine's instruction semantics and i
         "against the natively compiled code), z3 4.8.12 / z3 5.1.0 / cvc5 1.0, the ES5 oracles in /verif/harness; bounds, stubs and what lies outside the claim are listed in the evidence file")
 
 TEXT = {
- "C01": "only a template family is decided, not the quantifier over programs: 8 fixed program templates covering switch fall-through, labelled break/continue, try/catch/finally completion, hoisting and closures, this-binding, the arguments object, with, direct/indirect eval, statement completion values and uncaught-exception classes are run through the real interpreter with their control data (discriminants, loop bounds, branch conditions, operands, this-values) symbolic, by each of the five submission routes, and the recorded host-call sequence, completion value and error class are asserted against a Go transcription of each template; programs outside the templates are outside the claim",
- "C02": "bounded symbolic execution of built-ins under the real catchPanic with symbolic argument payloads: every implicit Go panic site (index, slice bound, nil dereference, type assertion) is a solver query over all doubles / short byte strings; decides that no Go run-time panic crosses the API boundary within the stated receiver/argument shapes",
- "C03": "bounded symbolic execution of the real parser on templates whose operator/literal bytes are symbolic; the tree shape or literal value is asserted against an ES5 precedence / literal-value oracle for every byte assignment",
- "C04": "bounded symbolic execution of the real lexer+parser+ast.Walk on fully symbolic source bytes (every byte string up to the bound, and statement templates with symbolic holes): panic-freedom, error positions inside the input, node spans, Walk contract",
- "C05": "bounded symbolic execution of otto's conversion and operator kernels; each assertion real(x) == ES5-reference(x) is decided over the whole domain of the symbolic operands (all 2^64 doubles, every Go integer kind, short strings)",
- "C06": "bounded symbolic execution of the text->number built-ins and of the radix/precision range checks against ES5 grammar recognisers; digit generation (strconv.FormatFloat) is stubbed and not claimed",
- "C07": "one inductive step of [[DefineOwnProperty]]/[[Put]]/[[Delete]]/freeze/seal from a symbolic valid pre-state (attribute bits, descriptor shape, extensibility symbolic) against a transcription of ES5 8.12 / 15.2.3",
- "C08": "bounded symbolic execution of array-index recognition, the length step and the relative-index helpers for all doubles x all lengths, and of Array methods on receivers of bounded size with symbolic numeric arguments",
- "C09": "bounded symbolic execution of String.prototype built-ins on symbolic valid-UTF-8 subjects and arbitrary double positions against a UTF-16 reference",
- "C10": "bounded symbolic execution of the pattern translator on symbolic pattern bytes (totality, escape values, rejection of look-ahead/back-references); the RE2 matcher itself is outside the claim",
- "C12": "only the invalid-date part of the property is decided: for every NaN / infinite time value or field, constructor, Date.UTC, setUTC* and 19 accessors yield NaN (bounded symbolic execution through the public API); the calendar algebra for valid time values could not be decided by any available solver and is explicitly outside the claim",
- "C13": "bounded symbolic execution of Math built-ins over all doubles against IEEE/ES5 references, and of escape/URI coding on short symbolic strings",
- "C15": "bounded symbolic execution of toValue/export/To* conversions for every Go numeric kind at full width",
- "C16": "bounded symbolic execution of the numeric conversion Value.toReflectValue (used for writes to bridged slices, arrays and struct fields) for any double x every numeric target kind through a reflect shim: an error, or the delivered Go value equals the JavaScript number; and of runtime.convertCallParameter for numeric parameters of bridged Go functions, and element writes to bridged slices through the public API; the reflective call wrapper itself (arity, variadics), structs and maps are outside the claim",
- "C17": "symbolic execution of the real cloner on a hand-built heap containing every reference kind, scalars symbolic; isomorphism, disjointness and independence under a symbolic mutation",
- "C18": "the interrupt poll of the real evaluator is made a symbolic choice: for fixed program families every poll index up to the bound is explored and the unwinding/rest-state assertions are decided on each path",
- "C19": "bounded symbolic execution of the line/column arithmetic of parser and file package on symbolic source bytes against an ES5 7.3 line-terminator oracle; trace capture with symbolic limits",
+ "C01": "only a template family is decided, not the quantifier over programs: fixed program templates covering switch (fall-through, discriminant evaluated once, completion values), labelled break/continue in every loop kind, try/catch/finally completion and catch scope, hoisting and closures, this-binding, the arguments object, with, direct/indirect eval, the Function constructor's scope, constructors with primitive prototypes, for-in under deletion, statement completion values and uncaught-exception classes are run through the real interpreter with their control data (discriminants, loop bounds, branch conditions, operands, this-values) symbolic, by the five submission routes, and the recorded host-call sequence, completion value and error class are asserted against a Go transcription of each template; programs outside the templates are outside the claim",
+ "C02": "bounded symbolic execution, through the public API under the real catchPanic, of (a) every reachable built-in x receiver kind x 0..1 argument kinds (thorough: 2 arguments for the built-ins whose second argument matters, every function as a constructor and through bind) with symbolic payloads, (b) 24 groups of Go-side API calls (Value / Object accessors, Call, Object, Eval, ToValue, Set, Get, Compile, Export) on 19 kinds of subject value including objects with throwing conversions, throwing accessors, cycles and shared substructures, (c) the stack depth limit: every implicit Go panic site reached is a solver query over all payloads; decides that no Go panic crosses the API boundary within the stated shapes. Unbounded Go recursion shows up only as an exceeded call-depth bound (inconclusive), which is how the Export stack overflow was noticed",
+ "C03": "bounded symbolic execution of the real parser on templates whose operator, separator and literal bytes are symbolic; the tree shape or literal value is asserted against an ES5 precedence / grammar / literal-value oracle for every byte assignment (operator pairs, unary / conditional / comma levels, the grammar inside a conditional, ASI after every kind of statement-ending token, restricted productions, the NoIn grammar of for headers, numeric literals, string escapes)",
+ "C04": "bounded symbolic execution of the real lexer+parser+ast.Walk on fully symbolic source bytes (every byte string up to the bound, and statement templates with symbolic holes): panic-freedom, error positions inside the input, node spans, Walk contract; 35 programs with early errors, their two halves joined by every white-space / line-terminator separator, must be rejected",
+ "C05": "bounded symbolic execution of otto's conversion and operator kernels and of the operators through the public API; each assertion real(x) == ES5-reference(x) is decided over the whole domain of the symbolic operands (all 2^64 doubles, every Go integer kind held inside a Value, short strings, every pair of primitive kinds for the comparison and logical operators)",
+ "C06": "bounded symbolic execution of the text->number built-ins and of the radix/precision range checks against ES5 grammar recognisers; digit generation (strconv.FormatFloat) is stubbed and not claimed, but which formatting route is taken is (toFixed above 1e21, radix 10, NaN and infinities), with math.Log10 an uninterpreted function",
+ "C07": "one inductive step of [[DefineOwnProperty]]/[[Put]]/[[Delete]]/freeze/seal from a symbolic valid pre-state (attribute bits, descriptor shape, extensibility, values symbolic) against a transcription of ES5 8.12 / 15.2.3, and for-in enumeration order / shadowing through the public API",
+ "C08": "bounded symbolic execution of array-index recognition, the length step and the relative-index helpers for all doubles x all lengths, and of Array methods through the public API on receivers of bounded size (slots hole-or-symbolic-double) with symbolic numeric arguments against a sparse-array model: indexOf/lastIndexOf/slice/splice, the iteration callbacks, push/pop/shift/unshift/reverse/concat/map, sort with consistent, default and arbitrary inconsistent comparators",
+ "C09": "bounded symbolic execution of String.prototype built-ins through the public API on symbolic valid-UTF-8 subjects (also around a surrogate pair) and arbitrary double positions against a UTF-16 code-unit reference",
+ "C10": "bounded symbolic execution of the pattern translator on symbolic pattern bytes (totality, escape values, classes nested in groups, pass-through of the portable subset's syntax, rejection of look-ahead/back-references), and of the exec/test/match/replace/search/split protocol (lastIndex reading, updating and resetting, $-patterns, captures, limits, empty matches) for fixed patterns /a/ /a*/ /$/ /(a)/ on every short ASCII subject with any double as lastIndex; the RE2 matcher runs natively on class representatives and is itself outside the claim",
+ "C12": "two parts of the property are decided: (1) for every NaN / infinite time value or field, constructor, Date.UTC, setUTC* and 19 accessors yield NaN; (2) the field normalisation of Date.UTC (ToInteger per field, two-digit years) as a metamorphic equation with Go's time.Date an uninterpreted function. The calendar algebra for valid time values could not be decided by any available solver and is outside the claim",
+ "C13": "bounded symbolic execution of Math built-ins over all doubles against IEEE/ES5 references (round, floor, ceil, abs, sqrt, trunc, max/min, the special-case table of pow), isNaN/isFinite, and of escape/unescape/URI coding on short symbolic strings and on every astral code point; transcendental functions are uninterpreted",
+ "C15": "bounded symbolic execution of Set -> Get -> Export / To* for every Go scalar kind at full width, named kinds included, and the agreement of the Value predicates with typeof / Number() / Boolean()",
+ "C16": "bounded symbolic execution of the numeric conversions of the bridge for any stored number x every numeric target kind through a reflect shim (Value.toReflectValue, runtime.convertCallParameter): an error the script sees, or the delivered Go value equals the JavaScript number; element writes (also past the end) to bridged slices through the public API; the conversion of property names to integer keys of bridged maps. The reflective call wrapper itself (arity, variadics), struct fields and the map operations of package reflect are outside the claim",
+ "C17": "symbolic execution of Otto.Copy through the public API on one setup program whose heap contains every reference kind the cloner distinguishes (closures over function / with / catch scopes, accessors, arguments objects, bound functions with object arguments, RegExp, wrapper, Error, Date, sparse array, modified built-in prototypes), scalars symbolic: observational equality of copy and copy-of-copy, and independence under 28 mutation programs applied to any of the three runtimes",
+ "C18": "the interrupt poll of the real evaluator is made a symbolic choice: for fixed program families every poll index up to the bound is explored and the unwinding / rest-state / no-further-progress assertions are decided on each path; abnormal exits from 12 nested constructs; the stack depth limit for every limit and depth and, calibrated against an unlimited run, on 13 ways of entering an execution context",
+ "C19": "bounded symbolic execution of the line/column arithmetic of parser and file package on symbolic source bytes against an ES5 7.3 line-terminator oracle; trace capture with symbolic limits; call-site line/column of every script frame for 18 call forms placed behind symbolic white space / line terminators; the native error class, name, prototype and message at 40 raise sites with symbolic offending operands",
 }
 NA = [
  ("C01", "quantifier over programs: a symbolic program degenerates into enumerating concrete ASTs (dispatch is on node type) and there is no independent ES5 evaluator to assert against; what the solver can decide about evaluation with symbolic data is claimed under C05/C07/C08/C18"),
